@@ -118,6 +118,7 @@ def plan_C01(run):
     run.require_classes(RATE_CLASSES + ["gamma=probe", "gamma=big", "gamma=one", "gamma=zero"], "rate-campaign")
     # behaviours of the state machine (incl. the owner reconfiguring a used model between calls) replayed on live objects
     sequences_stage(run, {"C01"})
+    campaign(run, "integer-grid", {"C01"}, lambda s, r: drivers.integer_grid_rate(s, r))
     return {"rule": "random rate() calls over the full numeric domain (2-8 teams x 1-8 players, five models, "
                     "configurations, every encoding of the outcome); distinct = distinct coverage-class vectors "
                     "(model, n, tie pattern, shape class, encoding, options, floor/clamp/guard regime)",
@@ -180,6 +181,7 @@ def plan_C05(run):
     m = q(run, 250, 5000)
     campaign(run, "outcome-groups", {"C05"}, lambda s, r: drivers.outcome_groups(s, r, m))
     run.require_classes(["group:C05:draw", "group:C05:loss", "group:C05:swap"], "outcome-groups")
+    campaign(run, "integer-grid", {"C05"}, lambda s, r: drivers.integer_grid_rate(s, r))
     return {"rule": "single-game clauses on random rate() calls (sole winner/loser, team moves together, proportionality); "
                     "two-team games under win/draw/loss; games without ties with two teams exchanging places"}
 
@@ -206,6 +208,7 @@ def plan_C07(run):
     campaign(run, "kernel-regimes", {"C07"}, lambda s, r: drivers.tm_regimes(s, r, q(run, 700, 15000)))
     campaign(run, "rate-campaign", {"C07"}, lambda s, r: drivers.rate_campaign(s, r, n))
     run.require_classes(RATE_CLASSES, "rate-campaign")
+    campaign(run, "integer-grid", {"C07"}, lambda s, r: drivers.integer_grid_rate(s, r))
     return {"rule": "random rate() calls; precision-weighted zero sum of observed mu changes"}
 
 
@@ -480,7 +483,8 @@ def plan_stages(run):
     campaign(run, "rate-campaign", {"S"}, on(lambda s, r: drivers.rate_campaign(s, r, n)))
     campaign(run, "order-groups", {"S"}, on(lambda s, r: drivers.order_groups(s, r, q(run, 150, 2000))))
     campaign(run, "extremes", {"S"}, on(lambda s, r: drivers.extremes_campaign(s, r, q(run, 300, 5000), ops=("rate",))))
-    run.require_classes(STAGE_CLASSES, "rate-campaign")
+    # no coverage requirement: a refactoring may remove or rename a helper, which then simply yields no record
+    # (which stage kinds were observed is in the report's class_counts)
     return {"rule": "the helpers' observed arguments and results during rate() against Outcome!SortPerm / RunIdx / Pos / Ladder and "
                     "Update!Agg / PLc / PLSumQ / PairC / TieSize"}
 
